@@ -309,6 +309,7 @@ class FGenFile:
         self.obligations = []
         self.failures = []
         self.skipped = []        # (scenario, reason): traced code outside the FEx fragment
+        self.exacts = []         # reduced single-substitution exactness theorems (the T module derives their real-valued corollaries)
         self.summary = []        # human-readable: theorem, value, side conditions
 
     def add_def(self, name, tree, comment=None):
@@ -345,6 +346,8 @@ class FGenFile:
             f'    (hc : AllHold A fin env {hl}) :\n    {stmt} :=\n'
             f'  {lemma} (by decide) (allHold_mono (by decide) hc)\n')
         self.obligations.append(Obligation(name, 'exact', f'AllHold {hl} -> {stmt}', what))
+        if ok and len(subs) == 1:
+            self.exacts.append(dict(name=name, defname=defname, v=subs[0][0], e=subs[0][1], target=target, conds=uniq, what=what))
         self.summary.append(dict(theorem=name, value=show(target, ctx.vars, ctx.syms),
                                  at=[f'{ctx.vars[v]} := {show(e, ctx.vars, ctx.syms)}' for v, e in subs],
                                  side_conditions=[('finite ' if k == 'fin' else 'non-zero ') + show(e, ctx.vars, ctx.syms) for k, e in uniq],
@@ -418,6 +421,7 @@ class TGenFile:
         self.ns = f'Gen{pid}'
         self.parts, self.chunks, self.obligations, self.failures, self.skipped = [], [], [], [], []
         self.imports = {f'NdeVerif.Gen.{base}X'}
+        self.ties = {}
 
     def tie(self, name, sigma, module, ns):
         self.imports.add(module)
@@ -427,6 +431,28 @@ class TGenFile:
         stmt = f'FEx.toEx {sig} Gen{self.base}X.{name}_f = {ns}.{name}'
         self.chunks.append(f'theorem {thm} :\n    {stmt} := rfl\n')
         self.obligations.append(Obligation(thm, 'same-expression', stmt, f'the operation-order translation of scenario {name} forgets to the Ex translation of the same trace'))
+        self.ties[name] = (thm, sig, ns)
+
+    def real_corollary(self, ex):
+        """the exactness theorem `ex` (module <base>X), read in the arithmetic of the reals, as a statement about the Ex definition of the same
+        scenario: a second, certificate-free derivation of the value clause.  Non-zero side conditions remain as a hypothesis."""
+        scen = ex['defname'][:-2]
+        if scen not in self.ties:
+            return
+        thm, sig, ns = self.ties[scen]
+        nzs = [c for c in ex['conds'] if c[0] == 'nz']
+        hl = '[' + ', '.join(lean_cond(c) for c in ex['conds']) + ']'
+        nl = '[' + ', '.join(lean_cond(c) for c in nzs) + ']'
+        A = f'(realArithOf I {sig})'
+        name = ex['name'] + '_real'
+        hyp = f' (hnz : FEx.AllHold {A} (fun _ => True) ρ {nl})' if nzs else ''
+        stmt = (f'Ex.eval I (FEx.upd ρ {ex["v"]} (FEx.eval {A} ρ {lean_fex(ex["e"])})) {ns}.{scen} = FEx.eval {A} ρ {lean_fex(ex["target"])}')
+        side = (f'(allHold_of_isFin_or _ ρ {hl} {nl} (by decide) hnz)' if nzs else f'(allHold_of_isFin _ ρ {hl} (by decide))')
+        self.chunks.append(f'/-- {ex["what"]} - over the reals, about the Ex definition (derived from the operation-order theorem, no certificate) -/\n'
+                           f'theorem {name} (I : Interp) (ρ : Nat → ℝ){hyp} :\n    {stmt} := by\n'
+                           f'  rw [← {thm}, eval_toEx]\n'
+                           f'  exact Gen{self.base}X.{ex["name"]} {A} (fun _ => True) (realArithOf_exact I {sig}) ρ {side}\n')
+        self.obligations.append(Obligation(name, 'real-corollary', stmt[:500], ex['what'] + ' (real-valued corollary about the Ex definition)'))
 
     def text(self):
         head = ("/- GENERATED by /verif/harness from /repo's current working tree. Do not edit.\n   The two translations of every trace agree "
@@ -502,6 +528,8 @@ def exact_part(g, pid, nodes, ctxs, specs, stats=None, ex_home=None):
             continue
         module, ns = ex_home.get(name, (f'NdeVerif.Gen.{pid}', f'Gen{pid}'))
         tg.tie(name, sigma, module, ns)
+    for ex_ in fg.exacts:
+        tg.real_corollary(ex_)
     if tg.obligations:
         g.parts.append(tg)
     g.exact_info['same_expression_as_the_real_valued_model'] = dict(module=f'NdeVerif.Gen.{pid}T', theorems=len(tg.obligations),
